@@ -13,14 +13,14 @@ DESIGN_REF = "4.11"
 RULE = (
     "cases = protocol version x registry given as a set of ids in 0..255 by shape (empty, dense prefix, sparse random, containing 0/254/255, "
     "nearly full), installed directly like persistence does or through node presentations x 1-20 id requests (broadcast asker and odd "
-    "askers/child ids) interleaved with node presentations of further ids. Enumerated part: registry {k} and {1..k} for every k in 0..255, "
+    "askers/child ids) interleaved with node presentations of further ids, x a set of answers whose write raises AFTER the line reached the wire (a failing drain). Enumerated part: registry {k} and {1..k} for every k in 0..255, "
     "each followed by three requests. Oracle: an answer is 'node;child;3;0;4;<id>' addressed like the request with 1<=id<=254, id not in the "
     "registry before, id in Gateway.nodes at the moment of the write (checked inside the transport) and afterwards, nothing else added; "
-    "TooManyNodesError only when no id above the highest registered one is free, with no answer and an unchanged registry; any other "
+    "no id appears twice among the answers that reached the wire; TooManyNodesError only when no id above the highest registered one is free, with no answer and an unchanged registry; any other "
     "outcome is a violation. Non-trivial = sparse registry (count != max id) or a boundary id 253-255 present; distinct = distinct case JSON."
 )
 ASSUMPTIONS = ["the allocation policy itself is not fixed by the statement: any fresh id in 1..254 is accepted"]
-DELETABLE = ("ops",)
+DELETABLE = ("ops", "fail_answers")
 ASPECTS = frozenset({"idalloc", "leak"})
 
 
@@ -52,7 +52,8 @@ def _ops():
 
 def strategy(tier: str):
     return st.fixed_dictionaries(
-        {"version": gen.versions_any, "ids": _ids, "install": st.sampled_from(("direct", "presented")), "ops": _ops(), "listen_mode": st.sampled_from(("fresh", "persistent"))}
+        {"version": gen.versions_any, "ids": _ids, "install": st.sampled_from(("direct", "presented")), "ops": _ops(), "listen_mode": st.sampled_from(("fresh", "persistent")), "debug_log": st.sampled_from((False, False, True)),
+         "fail_answers": st.one_of(st.just([]), st.just([]), st.lists(st.integers(0, 5), max_size=3, unique=True).map(sorted))}
     )
 
 
@@ -69,16 +70,67 @@ def enumerate_cases(tier: str):
         yield {"version": "1.4", "ids": [i for i in range(0, 255) if i != k - 100], "install": "direct", "ops": req}
 
 
+def _wire_ids(transport) -> list[int]:
+    out = []
+    for line in getattr(transport, "wire", []):
+        match = drive.IDRESP.match(line)
+        if match:
+            out.append(int(match.group(3)))
+    return out
+
+
 def run_case(case: dict) -> Outcome:
     ids = sorted(set(case["ids"]))
     ops = list(case["ops"])
-    hist = {"version": case["version"], "ops": ops, "listen_mode": case.get("listen_mode", "fresh")}
+    hist = {"version": case["version"], "ops": ops, "listen_mode": case.get("listen_mode", "fresh"), "debug_log": case.get("debug_log", False)}
     if case["install"] == "presented":
         hist["registry"] = {}
         hist["ops"] = [["rx", f"{i};255;0;0;17;2.0\n"] for i in ids] + ops
     else:
         hist["registry"] = {str(i): {} for i in ids}
-    bad, info = env.run(drive.run_history(hist, ASPECTS))
+    fail_answers = set(case.get("fail_answers", []))
+    state = {"answers": 0}
+
+    def setup(gateway, transport, model):
+        transport.fail_after_record = True  # the answer reaches the wire, then the write raises (a drain() that fails)
+
+        def fail_pred(line: str) -> bool:
+            if not drive.IDRESP.match(line):
+                return False
+            state["answers"] += 1
+            return state["answers"] - 1 in fail_answers
+
+        transport.fail_pred = fail_pred
+
+    def fault_step(rec, model):
+        # the id went out on the wire although the write raised: from the node's point of view it was handed out
+        sent = [int(drive.IDRESP.match(l).group(3)) for _s, l, failed in rec.attempts if failed and drive.IDRESP.match(l)]
+        for new_id in sent:
+            if str(new_id) in model.nodes:
+                return ("id-not-fresh", f"id {new_id} was put on the wire although it is in the registry")
+            model.nodes[str(new_id)] = __import__("vf.model", fromlist=["new_node"]).new_node(new_id)
+            snap = rec.after.get(str(new_id))
+            if snap is None:
+                state.setdefault("burned", set()).add(new_id)
+                del model.nodes[str(new_id)]
+            else:
+                model.nodes[str(new_id)]["node_type"] = snap["node_type"]
+                model.nodes[str(new_id)]["protocol_version"] = snap["protocol_version"]
+        return None
+
+    def after_step(rec, gateway, transport, model):
+        wire = _wire_ids(transport)
+        dup = {i for i in wire if wire.count(i) > 1}
+        if dup:
+            return ("id-handed-out-twice", f"ids {sorted(dup)} appear twice among the answers put on the wire: {wire}")
+        return None
+
+    bad, info = env.run(drive.run_history(hist, ASPECTS, hooks={"setup": setup, "fault_step": fault_step, "after_step": after_step}))
+    if bad is None:
+        wire = _wire_ids(info["gateway"].transport)
+        dup = {i for i in wire if wire.count(i) > 1}
+        if dup:
+            bad = __import__("vf.runner", fromlist=["fail"]).fail("id-handed-out-twice", f"ids {sorted(dup)} appear twice among the answers put on the wire: {wire}")
     sparse = bool(ids) and len(ids) != max(ids)
     boundary = any(i >= 253 for i in ids)
     classes = tuple(k for k in sorted(info["classes"]) if k.startswith("id-request")) + (
